@@ -32,7 +32,7 @@ CHECKS = {
         technique="deterministic simulation with per-object disposer counting, scan-frees-unguarded interval oracle and singleton-destruction check",
     ),
     "C04": dict(
-        subjects=[("smr.RCU_gpi", 8000, 300000), ("smr.RCU_gpb", 8000, 300000), ("smr.RCU_gpt", 6000, 200000), ("smr.RCU_shb", 6000, 200000)],
+        subjects=[("smr.RCU_gpi", 8000, 300000), ("smr.RCU_gpb", 8000, 300000), ("smr.RCU_gpt", 20000, 300000), ("smr.RCU_shb", 6000, 200000)],
         classes=["reclaimed-under-reader", "synchronize-returned-early", "deref-after-dispose"],
         expect_probes=["disposed_during_run", "critical_sections", "synchronize_ops", "batch_retire_ops", "reattach"],
         assumptions=["RCU API calls that may synchronise are never made under a reader lock (documented protocol)"],
@@ -40,9 +40,9 @@ CHECKS = {
         technique="deterministic simulation (seeded schedules; stalled readers, x86-TSO store buffer, spurious condvar wake-ups, delayed signals, thread churn) with a disposal-vs-critical-section interval oracle",
     ),
     "C05": dict(
-        subjects=[("smr.RCU_gpi", 5000, 200000), ("smr.RCU_gpb", 8000, 300000), ("smr.RCU_gpt", 6000, 200000), ("smr.RCU_shb", 6000, 200000)],
-        classes=["double-dispose", "never-disposed", "dispose-not-retired", "dispose-unknown"],
-        fatal_classes_as_violation=["hang"],
+        subjects=[("smr.RCU_gpi", 5000, 200000), ("smr.RCU_gpb", 8000, 300000), ("smr.RCU_gpt", 20000, 300000), ("smr.RCU_shb", 6000, 200000)],
+        classes=["double-dispose", "never-disposed", "dispose-not-retired", "dispose-unknown", "reclaimed-under-reader", "synchronize-returned-early"],   # "exactly once, after a grace period"
+        fatal_classes_as_violation=["hang", "hang-solo"],
         expect_probes=["disposed_during_run", "disposed_at_singleton_destruction", "batch_retire_ops"],
         assumptions=["RCU API calls that may synchronise are never made under a reader lock (documented protocol)"],
         title="RCU disposes every retired object exactly once",
@@ -57,6 +57,7 @@ CHECKS = {
             "queue.FCQueue_backoff", "queue.FCQueue_list_elim", "queue.FCQueue_wait_empty", "queue.FCQueue_elim_smsc", "queue.FCQueue_smmc",
             "queue.FCQueue_elim_mmmc", "queue.iFCQueue_list", "queue.iFCQueue_slist_elim"]],
         classes=["not-linearizable", "double-dispose", "never-disposed"],
+        fatal_classes_as_violation=["hang-solo"],   # an operation that can never return although every other client has finished: the sequential specification is total
         expect_probes=["F10_eager_reclaim", "stat_bad_tail", "fc_combining_passes", "fc_collided", "intrusive_nodes"],
         title="Unbounded MPMC queues are linearizable FIFO queues",
         technique="deterministic simulation (seeded schedules; weak-CAS, stall, thread-churn, early-timeout, spurious-wake-up, eager-reclamation faults) + Wing-Gong linearizability check of each recorded history against a sequential FIFO model",
@@ -64,12 +65,14 @@ CHECKS = {
     "C07": dict(
         subjects=[(n, 5000, 150000) for n in ["queue.Vyukov_dyn", "queue.Vyukov_dyn_ic_seqcst", "queue.Vyukov_static4", "queue.Vyukov_single_consumer", "queue.iVyukov"]],
         classes=["not-linearizable"],
+        fatal_classes_as_violation=["hang-solo"],   # an operation that can never return although every other client has finished: the sequential specification is total
         title="Bounded Vyukov queue is a linearizable bounded FIFO",
         technique="deterministic simulation (seeded schedules; weak-CAS, stall, thread-churn, early-timeout, spurious-wake-up, eager-reclamation faults) + Wing-Gong linearizability check of each recorded history against a bounded FIFO model of the reported capacity (wrap-around programs)",
     ),
     "C08": dict(
         subjects=[(n, 4000, 100000) for n in ["segq.SegmentedQueue_HP", "segq.SegmentedQueue_DHP", "segq.SegmentedQueue_HP_randperm", "segq.iSegmentedQueue_HP", "segq.iSegmentedQueue_DHP_randperm"]],
         classes=["enqueue-failed", "duplicate-dequeue", "invented-item", "lost-item", "quasi-fifo-bound", "false-empty", "double-dispose"],
+        fatal_classes_as_violation=["hang-solo"],   # an operation that can never return although every other client has finished: the sequential specification is total
         expect_probes=["segq_segments_created", "segq_segments_deleted", "F10_eager_reclaim"],
         title="SegmentedQueue conserves items and bounds reordering by the quasi factor",
         technique="deterministic simulation (seeded schedules and faults) + conservation / quasi-FIFO-bound / emptiness interval oracles over the step-stamped history",
@@ -79,6 +82,7 @@ CHECKS = {
                   "stack.Treiber_DHP_elim_dyn", "stack.iTreiber_HP", "stack.iTreiber_DHP", "stack.iTreiber_HP_elim", "stack.iTreiber_DHP_elim", "stack.FCStack_deque", "stack.FCStack_vector_elim",
                   "stack.FCStack_list_elim_smmc", "stack.FCStack_mmmc", "stack.iFCStack_list", "stack.iFCStack_list_elim"]],
         classes=["not-linearizable"],
+        fatal_classes_as_violation=["hang-solo"],   # an operation that can never return although every other client has finished: the sequential specification is total
         expect_probes=["elim_active_collision", "elim_passive_collision", "fc_collided", "F10_eager_reclaim"],
         title="Stacks are linearizable LIFO stacks, with or without elimination",
         technique="deterministic simulation (seeded schedules; weak-CAS, stall, thread-churn, early-timeout, spurious-wake-up, eager-reclamation faults) + Wing-Gong linearizability check of each recorded history against a sequential LIFO model (elimination collisions provoked through simulated back-off sleeps)",
@@ -86,6 +90,7 @@ CHECKS = {
     "C10": dict(
         subjects=[(n, 4000, 100000) for n in ["deque.FCDeque_std", "deque.FCDeque_std_elim", "deque.FCDeque_boost_elim_smsc", "deque.FCDeque_boost_mmmc", "deque.FCDeque_std_elim_nowait"]],
         classes=["not-linearizable"],
+        fatal_classes_as_violation=["hang-solo"],   # an operation that can never return although every other client has finished: the sequential specification is total
         expect_probes=["fc_collided", "fc_combining_passes", "fc_pubrecords_deleted"],
         title="FCDeque is a linearizable double-ended queue",
         technique="deterministic simulation (seeded schedules; weak-CAS, stall, thread-churn, early-timeout, spurious-wake-up, eager-reclamation faults) + Wing-Gong linearizability check of each recorded history against a sequential deque model",
@@ -94,41 +99,47 @@ CHECKS = {
         subjects=[(n, 4000, 100000) for n in ["pq.FCPriorityQueue_vector", "pq.FCPriorityQueue_deque_smsc", "pq.FCPriorityQueue_stable_vector_mmmc", "pq.MSPriorityQueue_spin", "pq.MSPriorityQueue_mutex",
                   "pq.MSPriorityQueue_static8", "pq.iMSPriorityQueue"]],
         classes=["not-linearizable"],
+        fatal_classes_as_violation=["hang-solo"],   # an operation that can never return although every other client has finished: the sequential specification is total
         expect_probes=["mspq_push_failed", "mspq_push_heapify_swaps", "fc_combining_passes"],
         title="Priority queues conserve items and honour priority order",
         technique="deterministic simulation (seeded schedules; weak-CAS, stall, thread-churn, early-timeout, spurious-wake-up, eager-reclamation faults) + Wing-Gong linearizability check of each recorded history against a max-priority multiset (FCPriorityQueue; MSPriorityQueue in phased programs with a simulator barrier) or a bag with capacity (MSPriorityQueue mixed programs)",
     ),
     "C15": dict(
         subjects=[(n, 1500, 30000) for n in _S["tree"]],
-        classes=["not-linearizable", "functor-call-count", "traversal-order", "traversal-mismatch", "size-mismatch", "inconsistent-structure", "extract-minmax-false-empty", "extract-minmax-order", "double-dispose", "never-disposed", "dispose-not-inserted"],
+        classes=["not-linearizable", "functor-call-count", "functor-overlap", "freed-element-observed", "traversal-order", "traversal-mismatch", "size-mismatch", "inconsistent-structure", "avl-imbalance-behind-routing-node", "extract-minmax-false-empty", "extract-minmax-order", "double-dispose", "never-disposed", "dispose-not-inserted"],
+        fatal_classes_as_violation=["hang-solo"],   # an operation that can never return although every other client has finished: the sequential specification is total
         expect_probes=["bronson_rotations", "F10_eager_reclaim", "quiescent_traversals"],
         title="Skip lists and trees are linearizable ordered sets and maps",
         technique="deterministic simulation (seeded schedules and faults, forced skip-list tower heights) + Wing-Gong linearizability check against an ordered key->instance map, relaxed interval oracle for extract_min/extract_max, quiescent structure checks",
     ),
     "C13": dict(
         subjects=[(n, 1200, 30000) for n in _S["list"]],
-        classes=["not-linearizable", "functor-call-count", "traversal-order", "traversal-mismatch", "size-mismatch", "inconsistent-structure", "extract-minmax-false-empty", "extract-minmax-order", "double-dispose", "never-disposed", "dispose-not-inserted"],
+        classes=["not-linearizable", "functor-call-count", "functor-overlap", "freed-element-observed", "traversal-order", "traversal-mismatch", "size-mismatch", "inconsistent-structure", "avl-imbalance-behind-routing-node", "extract-minmax-false-empty", "extract-minmax-order", "double-dispose", "never-disposed", "dispose-not-inserted"],
+        fatal_classes_as_violation=["hang-solo"],   # an operation that can never return although every other client has finished: the sequential specification is total
         expect_probes=["F10_eager_reclaim", "quiescent_traversals"],
         title="Ordered lists are linearizable sets and maps",
         technique="deterministic simulation (seeded schedules; weak-CAS, stall, thread-churn, eager-reclamation, RCU signal/condvar faults; degenerate hashes and minimal capacities as knobs) + Wing-Gong linearizability check of each recorded history against a key->instance map model, plus quiescent traversal/size/consistency checks",
     ),
     "C14": dict(
         subjects=[(n, 800, 20000) for n in _S["hash"]],
-        classes=["not-linearizable", "functor-call-count", "traversal-order", "traversal-mismatch", "size-mismatch", "inconsistent-structure", "extract-minmax-false-empty", "extract-minmax-order", "double-dispose", "never-disposed", "dispose-not-inserted"],
+        classes=["not-linearizable", "functor-call-count", "functor-overlap", "freed-element-observed", "traversal-order", "traversal-mismatch", "size-mismatch", "inconsistent-structure", "avl-imbalance-behind-routing-node", "extract-minmax-false-empty", "extract-minmax-order", "double-dispose", "never-disposed", "dispose-not-inserted"],
+        fatal_classes_as_violation=["hang-solo"],   # an operation that can never return although every other client has finished: the sequential specification is total
         expect_probes=["split_bucket_inits", "split_bucket_init_contention", "feldman_array_nodes_expanded", "feldman_slot_converting", "F10_eager_reclaim"],
         title="Hash sets and maps are linearizable, including during growth",
         technique="deterministic simulation (seeded schedules; weak-CAS, stall, thread-churn, eager-reclamation, RCU signal/condvar faults; degenerate hashes and minimal capacities as knobs) + Wing-Gong linearizability check of each recorded history against a key->instance map model, plus quiescent traversal/size/consistency checks",
     ),
     "C16": dict(
         subjects=[(n, 1200, 30000) for n in _S["lockset"]],
-        classes=["not-linearizable", "functor-call-count", "traversal-order", "traversal-mismatch", "size-mismatch", "inconsistent-structure", "extract-minmax-false-empty", "extract-minmax-order", "double-dispose", "never-disposed", "dispose-not-inserted"],
+        classes=["not-linearizable", "functor-call-count", "functor-overlap", "freed-element-observed", "traversal-order", "traversal-mismatch", "size-mismatch", "inconsistent-structure", "avl-imbalance-behind-routing-node", "extract-minmax-false-empty", "extract-minmax-order", "double-dispose", "never-disposed", "dispose-not-inserted"],
+        fatal_classes_as_violation=["hang-solo"],   # an operation that can never return although every other client has finished: the sequential specification is total
         expect_probes=["cuckoo_relocate_calls", "cuckoo_resize_calls"],
         title="Lock-based hash containers are linearizable across concurrent resizes",
         technique="deterministic simulation (seeded schedules; weak-CAS, stall, thread-churn, eager-reclamation, RCU signal/condvar faults; degenerate hashes and minimal capacities as knobs) + Wing-Gong linearizability check of each recorded history against a key->instance map model, plus quiescent traversal/size/consistency checks",
     ),
     "C17": dict(
         subjects=[(n, 800, 20000) for n in _S["lockset"] + [x for x in _S["hash"] if "SplitList" in x or "Feldman" in x]],
-        classes=["not-linearizable", "functor-call-count", "traversal-order", "traversal-mismatch", "size-mismatch", "inconsistent-structure", "extract-minmax-false-empty", "extract-minmax-order", "double-dispose", "never-disposed", "dispose-not-inserted"],
+        classes=["not-linearizable", "functor-call-count", "functor-overlap", "freed-element-observed", "traversal-order", "traversal-mismatch", "size-mismatch", "inconsistent-structure", "avl-imbalance-behind-routing-node", "extract-minmax-false-empty", "extract-minmax-order", "double-dispose", "never-disposed", "dispose-not-inserted"],
+        fatal_classes_as_violation=["hang-solo"],   # an operation that can never return although every other client has finished: the sequential specification is total
         expect_probes=["cuckoo_relocate_calls", "cuckoo_resize_calls", "split_bucket_inits", "feldman_array_nodes_expanded"],
         assumptions=["degenerate hashes are bounded to what the documented algorithms can hold (CuckooSet: at most arity x probe-set size keys per hash tuple); the 1-thread slice of the batch is plain seeded input generation"],
         title="Resize and rehash never lose or duplicate elements for any hash functions",
@@ -136,14 +147,15 @@ CHECKS = {
     ),
     "C18": dict(
         subjects=[(n, 700, 15000) for n in _S["list"] + _S["tree"] + [x for x in _S["hash"] if "SplitList" in x]],
-        classes=["traversal-order", "traversal-mismatch", "size-mismatch", "inconsistent-structure", "not-linearizable"],
+        classes=["traversal-order", "traversal-mismatch", "size-mismatch", "inconsistent-structure", "avl-imbalance-behind-routing-node", "not-linearizable", "use-after-free"],
         expect_probes=["quiescent_traversals", "bronson_rotations"],
         title="Quiescent structure is well-formed and traversal is exact",
         technique="deterministic simulation of longer concurrent phases (up to 4 threads x 8 ops) followed by quiescence; oracle: traversal visits exactly the keys that find() sees, strictly increasing where ordered, size()/empty() agree, EllenBinTree/Bronson check_consistency(), Bronson search order and AVL balance from recomputed heights",
     ),
     "C20": dict(
         subjects=[(n, 250, 5000) for n in _S["list"] + _S["hash"] + _S["tree"] + _S["lockset"] + _S["queue"] + _S["stack"] + _S["deque"] + _S["pq"]],
-        classes=["not-linearizable", "functor-call-count", "traversal-order", "traversal-mismatch", "size-mismatch", "inconsistent-structure", "extract-minmax-false-empty", "extract-minmax-order", "double-dispose", "never-disposed", "dispose-not-inserted"] + ["not-linearizable"],
+        classes=["not-linearizable", "functor-call-count", "functor-overlap", "freed-element-observed", "traversal-order", "traversal-mismatch", "size-mismatch", "inconsistent-structure", "avl-imbalance-behind-routing-node", "extract-minmax-false-empty", "extract-minmax-order", "double-dispose", "never-disposed", "dispose-not-inserted"] + ["not-linearizable"],
+        fatal_classes_as_violation=["hang-solo"],   # an operation that can never return although every other client has finished: the sequential specification is total
         assumptions=["one simulated client thread: the schedule space is a point; what the simulator adds is spurious weak-CAS failure, forced skip-list tower heights, seeded rand()/clock, SMR knobs and eager reclamation; the rest is plain seeded generation of operation sequences (stated in DESIGN.md)"],
         title="Single-threaded API behaviour matches the reference container model",
         technique="seeded generation of single-thread operation sequences (8-36 ops) executed under the simulator with weak-CAS failure injection and knob randomisation; each result (return value, update pair, functor instance/new-flag/call count, pop order, final contents, size/empty) compared with the sequential reference model",
@@ -179,7 +191,7 @@ CHECKS = {
     "C23": dict(
         subjects=[(n, 5000, 200000) for n in ["misc.fc_kernel_backoff", "misc.fc_kernel_empty", "misc.fc_kernel_smsc", "misc.fc_kernel_smmc", "misc.fc_kernel_mmmc", "misc.fc_kernel_mmmc_mutex"]],
         classes=["two-combiners", "executed-twice", "never-executed", "wrong-response", "response-before-execution", "garbage-request", "freed-record-written", "record-leaked"],
-        fatal_classes_as_violation=["hang", "deadlock"],
+        fatal_classes_as_violation=["hang", "hang-solo", "deadlock"],
         expect_probes=["fc_pubrecords_deleted", "fc_compact_list", "fc_passive_to_combiner", "fc_wakeups_by_notify"],
         title="Flat combining executes each request exactly once under mutual exclusion",
         technique="deterministic simulation of the real flat-combining kernel under a counting harness container (seeded schedules, real thread exit and record compaction, early time-outs, spurious wake-ups); oracle: per-request execution count, single combiner, response-after-execution, freed publication records untouched (poisoning allocator); a request that can never complete = violation",
